@@ -17,7 +17,7 @@ TIMEOUT = {'quick': 10, 'thorough': 120}
 
 def FUNCS():
     return [Twist3.Revolute, Twist3.Prismatic, Twist3.exp, Twist3.pitch, Twist3.pole, Twist3.line, Twist3.theta, Twist3.se3,
-            Twist3.inv, Twist3.__mul__, Twist2.Revolute, Twist2.Prismatic, Twist2.exp, Twist2.se2, Twist3.isprismatic.fget,
+            Twist3.inv, Twist3.__mul__, Twist3.__rmul__, Twist2.__mul__, Twist2.inv, Twist2.Revolute, Twist2.Prismatic, Twist2.exp, Twist2.se2, Twist3.isprismatic.fget,
             base.trexp, base.trexp2, base.unitvec]
 
 
@@ -119,6 +119,36 @@ def _(h):
     h.is_type('type', S * k, Twist3)
 
 
+@claim('reflected-scalar-multiple')
+def _(h):
+    """k * S (documented: scalar x Twist -> Twist, element-wise product) for symbolic and integer k, 3D and planar"""
+    S, a, d, q = rev(h)
+    k = h.angle('k', -6.29, 6.29)
+    q2 = h.vec('p', 2, -1e3, 1e3)
+    P = Twist2.Revolute(q2)
+    for nm, X, cls, sc in (('Twist3', S, Twist3, 1 + nsq(q)), ('Twist2', P, Twist2, 1 + nsq(q2))):
+        for knm, kk in (('k', k), ('2', 2)):
+            r = kk * X
+            h.is_type(f'{nm}: type of {knm}*S', r, cls)
+            h.true(f'{nm}: {knm}*S is single-valued', hasattr(r, '__len__') and len(r) == 1)
+            if isinstance(r, cls) and len(r) == 1:
+                h.eq(f'{nm}: {knm}*S = S*{knm}', r.S, X.S * kk, scale=sc)
+
+
+@claim('planar-scalar-multiple-and-inverse', split=True)
+def _(h):
+    q = h.vec('q', 2, -1e3, 1e3)
+    S = Twist2.Revolute(q)
+    k = h.angle('k', -6.29, 6.29)
+    sc = 1 + nsq(q)
+    h.is_type('type', S * k, Twist2)
+    h.eq('S*k', (S * k).S, S.S * k, scale=sc)
+    h.eq('exp(S*k) = S.exp(k)', (S * k).exp().A, S.exp(k).A, tol=1e-7, scale=sc)
+    h.eq('inv negates', S.inv().S, -S.S)
+    E, Ei = S.exp(k).A, S.inv().exp(k).A
+    h.eq('exp(inv) exp = I', matmul(Ei, E), np.eye(3, dtype=int), tol=1e-7, scale=sc)
+
+
 @claim('inverse-exp', split=True, timeout={'quick': 6, 'thorough': 120})
 def _(h):
     S, a, d, q = rev(h)
@@ -134,6 +164,8 @@ def _(h):
     h.eq('w = 0', S.w, [0, 0, 0])
     h.eq('v unit direction', S.v, d)
     h.true('isprismatic', S.isprismatic)
+    h.eq('theta() is the rotation magnitude: 0', S.theta(), 0)
+    h.true('not revolute', not S.isrevolute)
     th = h.real('th', -6.29, 6.29)
     h.assume(th * th >= 1e-12)
     T = S.exp(th).A
